@@ -2,8 +2,8 @@ import H264.SliceC06
 import H264.SliceExact
 import H264.SliceConverse
 import H264.History
-import H264.Tables2
-import H264.TblProof
+import H264.Tables2C06
+import H264.TblProofC06
 /-! # C06 — Slice header parsing follows H.264 7.3.3 and stops exactly at slice data
 
 Model: `Slice.parseSliceHeader ctx hdr` mirrors `SliceHeader::from_bits(ctx, reader, nal_header)`.
